@@ -346,6 +346,17 @@ func getMapIndex(key reflect.Value, aMap reflect.Value) reflect.Value {
 	return value
 }
 
+// arrayAsSlice returns a slice over a copy of the elements of an array value; any other value is returned as it is.
+// reflect can neither append to an array nor slice one that is not addressable.
+func arrayAsSlice(v reflect.Value) reflect.Value {
+	if v.Kind() != reflect.Array {
+		return v
+	}
+	own := reflect.New(v.Type()).Elem()
+	own.Set(v)
+	return own.Slice(0, own.Len())
+}
+
 // appendSlice appends rhs to lhs
 // function assumes lhsV and rhsV are slice or array
 func appendSlice(expr ast.Expr, lhsV reflect.Value, rhsV reflect.Value) (reflect.Value, error) {
